@@ -26,7 +26,7 @@
 //! Guards: limit ≥ 1 (callers pass batch_size ≥ 1), "unlimited" is 2^20, not usize::MAX (`start + limit`
 //! would overflow; real callers pass a batch size).
 //!
-//! Sensitivity probes (mkpatch + mutrun, `./check C14 quick`; all detected within 40 cases):
+//! Sensitivity probes (patches kept in harness/crates/vf-plow/probes/; mkpatch + mutrun, `./check C14 quick`; all detected within 40 cases):
 //!  1. join_hash_map.rs `(idx, Some(0)) => idx + 1` → `=> idx` (finished probe row processed again)
 //!     -> VIOLATION "paged lookup did not finish within N pages"
 //!  2. join_hash_map.rs unique-key fast path tests `valid.is_null(i)` instead of `valid.is_null(start + i)`
